@@ -75,6 +75,12 @@ use std::borrow::Cow;
 #[derive(Encode, Decode, CborLen, Debug, PartialEq)] #[cbor(map)] struct GapM { #[n(0)] a: u8, #[n(2)] c: u8 }
 #[derive(Encode, Decode, CborLen, Debug, PartialEq)] struct GapOuter { #[n(0)] m: GapM, #[n(1)] z: u8 }
 
+/// transparent tuple structs with a skipped field in front of / behind the one encoded field: they encode as that field (repaired in /repo:
+/// the derived Encode / CborLen forwarded to `self.0` whatever the field's position; Decode is not derivable for the skip-first shape)
+#[derive(Encode, CborLen)] #[cbor(transparent)] struct TrSkipFirst(#[cbor(skip)] #[allow(dead_code)] std::marker::PhantomData<u8>, #[n(0)] u64);
+#[derive(Encode, CborLen)] #[cbor(transparent)] struct TrSkipLast(#[n(0)] u64, #[cbor(skip)] #[allow(dead_code)] std::marker::PhantomData<u8>);
+#[derive(Encode, CborLen)] #[cbor(transparent)] struct TrSkipMid(#[cbor(skip)] #[allow(dead_code)] (), #[cbor(skip)] #[allow(dead_code)] u8, #[n(7)] String);
+
 /// a three-state user type: `Keep` is its nil value (left out by the derived encoder, filled in by `Decode::nil`), `Clear` is written as
 /// `null` — a present value, which only the type's own decoder can tell from a number
 #[derive(Debug, PartialEq, Clone, Copy)] enum Patch { Keep, Clear, Set(u8) }
@@ -241,6 +247,15 @@ pub fn run(w: &[&str]) -> String {
             let mut d = minicbor::Decoder::new(&b);
             let r = if *which == "M" { d.decode::<GapM>().map(|x| format!("{},{}", x.a, x.c)) } else { d.decode::<GapOuter>().map(|x| format!("{},{},{}", x.m.a, x.m.c, x.z)) };
             format!("{} len=0 dec={} pos=0", hex(&b), match r { Ok(v) => format!("{}@{}", v, d.position()), Err(e) => format!("err:{}", dclass(&e)) })
+        }
+        ("TrSkip", [which, n]) => {
+            let n: u64 = n.parse().ok()?;
+            let (b, l) = match *which {
+                "first" => { let v = TrSkipFirst(std::marker::PhantomData, n); (minicbor::to_vec(&v).ok()?, minicbor::len(&v)) }
+                "last" => { let v = TrSkipLast(n, std::marker::PhantomData); (minicbor::to_vec(&v).ok()?, minicbor::len(&v)) }
+                _ => { let v = TrSkipMid((), 9, n.to_string()); (minicbor::to_vec(&v).ok()?, minicbor::len(&v)) }
+            };
+            format!("{} len={} dec=- pos={}", hex(&b), l, b.len())
         }
         ("IoT", [k]) => { let v = match *k { "A" => IoT::A, "B" => IoT::B, _ => IoT::C }; rt(&v, |x| format!("{:?}", x)) }
         ("TrT", [n]) => rt(&TrT(n.parse().ok()?), |x| format!("{}", x.0)),
